@@ -400,6 +400,11 @@ class Findings:
 # --------------------------------------------------------------------------- evidence
 class Evidence:
     def __init__(self, prop, tier, level="model_checking"):
+        for old in glob.glob(os.path.join(ROOT, "replays", "%s_*.json" % prop)):  # stale replay files of earlier runs
+            try:
+                os.remove(old)
+            except OSError:
+                pass
         self.prop = prop
         self.tier = tier
         self.level = level
